@@ -2,6 +2,7 @@ package rules
 
 import (
 	"fmt"
+	"go/token"
 	"go/types"
 	"sort"
 	"strconv"
@@ -15,7 +16,7 @@ import (
 func init() { Registry["C14"] = checkC14 }
 
 func checkC14(p *core.Prog, r *core.Report) {
-	r.Explanation = "Decides structural necessary conditions of lossless codecs by extracting the byte layout of every straight-line codec function from SSA (constant-bound loops expanded): (R1) every Encode of package protocol writes all 64 positions; (R2) for each of the 20 Encode/Decode pairs every field byte that Decode reads from position p is the byte Encode writes at p (little-endian multi-byte fields, widening before shifting), string fields are read from the region they are written to; (R3) LockCommand and LockResultCommand match the offsets documented in README.md; (R4) every hand-inlined decoder of lock frames in server/ and client/ (functions storing LockCommand fields from a byte buffer) agrees with LockCommand.Decode on every arm, and the inlined result encoder of BinaryServerProtocol agrees with LockResultCommand.Encode; (R5) every RESULT_* code indexes inside ERROR_MSG (every result code has a text rendering); (R7) the text forms COUNT n / RCOUNT n reach the wire as n-1 and results render Count+1 / Rcount+1. (R8) the text parser's in-argument cursor is only reset, accumulated or set to the argument length (a necessary condition of chunking independence; found a real defect, repaired). (R9) the key/id normaliser defines all 16 bytes of its destination on every path (short arguments left-padded with zeros even in a recycled command). (R10) line segments of the reply parser can be empty (inclusive end initialised before the start; a real defect was repaired). (R11) every text converter assigns every wire field of its pooled LockCommand on every path. NOT decided: the rest of chunking independence, Build/Parse round trip, binary-safety of arguments, effect equivalence of text and binary LOCK, key normalisation (MD5/hex paths)."
+	r.Explanation = "Decides structural necessary conditions of lossless codecs by extracting the byte layout of every straight-line codec function from SSA (constant-bound loops expanded): (R1) every Encode of package protocol writes all 64 positions; (R2) for each of the 20 Encode/Decode pairs every field byte that Decode reads from position p is the byte Encode writes at p (little-endian multi-byte fields, widening before shifting), string fields are read from the region they are written to; (R3) LockCommand and LockResultCommand match the offsets documented in README.md; (R4) every hand-inlined decoder of lock frames in server/ and client/ (functions storing LockCommand fields from a byte buffer) agrees with LockCommand.Decode on every arm, and the inlined result encoder of BinaryServerProtocol agrees with LockResultCommand.Encode; (R5) every RESULT_* code indexes inside ERROR_MSG (every result code has a text rendering); (R7) the text forms COUNT n / RCOUNT n reach the wire as n-1 and results render Count+1 / Rcount+1. (R8) the text parser's in-argument cursor is only reset, accumulated or set to the argument length (a necessary condition of chunking independence; found a real defect, repaired). (R9) the key/id normaliser defines all 16 bytes of its destination on every path (short arguments left-padded with zeros even in a recycled command). (R10) line segments of the reply parser can be empty (inclusive end initialised before the start; a real defect was repaired). (R11) every text converter assigns every wire field of its pooled LockCommand on every path. (R12) after an element-count line the text parsers expect an element only under a test of the count (the empty list \"*0\" is complete at once; a real defect was repaired). (R13) after a text converter hands the rest of its argument list to a nested conversion inside its option loop, the loop does not go on over those arguments. NOT decided: the rest of chunking independence, the rest of the Build/Parse round trip, binary-safety of arguments, effect equivalence of text and binary LOCK, key normalisation (MD5/hex paths)."
 	r.Assumptions = []string{"Go type checker and go/ssa are correct for /repo", "codec functions are straight-line apart from constant-bound loops (anything else is reported as uninterpreted)"}
 	c14R123(p, r)
 	c14R4(p, r)
@@ -25,6 +26,8 @@ func checkC14(p *core.Prog, r *core.Report) {
 	c14R9(p, r)
 	c14R10(p, r)
 	c14R11(p, r)
+	c14R12(p, r)
+	c14R13(p, r)
 }
 
 // c14R8: the text parser is resumable - it returns in the middle of an argument
@@ -881,4 +884,273 @@ func c14R11(p *core.Prog, r *core.Report) {
 			r.Fail("C14/R11 %s: %s", name, ex.Imprecise)
 		}
 	}
+}
+
+// c14R12: BuildRequest / BuildResponse encode a list of n elements as "*n"
+// followed by n elements - for the empty list "*0\r\n" and nothing else. The
+// parsers are state machines; the state that follows the element-count line
+// may be "expect an element" only when the count just read is positive,
+// otherwise the list is already complete. Decided on the stores: a store of a
+// non-zero constant to TextParser.stage that follows (same block, or dominated
+// by the block of) a store of a parsed, non-constant element count to
+// TextParser.argsCount must be control-dependent on a comparison of that count
+// with a constant.
+func c14R12(p *core.Prog, r *core.Report) {
+	const rule = "C14/R12"
+	r.Rule(rule, "text parsers: after the element-count line the next state is \"expect an element\" only under a test of the count just read (an empty list is complete at once)", 1)
+	isField := func(addr ssa.Value, field string) bool {
+		fa, ok := addr.(*ssa.FieldAddr)
+		if !ok {
+			return false
+		}
+		k := core.FieldKeyOf(fa.X.Type(), fa.Field)
+		return k.Type == "protocol.TextParser" && k.Field == field
+	}
+	strip := func(v ssa.Value) ssa.Value {
+		for {
+			c, ok := v.(*ssa.Convert)
+			if !ok {
+				return v
+			}
+			v = c.X
+		}
+	}
+	n := 0
+	for _, fn := range p.FuncsIn("protocol") {
+		if fn.Blocks == nil {
+			continue
+		}
+		for _, b := range fn.Blocks {
+			for ai, ins := range b.Instrs {
+				a, ok := ins.(*ssa.Store)
+				if !ok || !isField(a.Addr, "argsCount") {
+					continue
+				}
+				if _, isConst := a.Val.(*ssa.Const); isConst {
+					continue
+				}
+				count := strip(a.Val)
+				isCount := func(v ssa.Value) bool {
+					v = strip(v)
+					if v == count {
+						return true
+					}
+					if u, ok := v.(*ssa.UnOp); ok && u.Op == token.MUL && isField(u.X, "argsCount") {
+						return true
+					}
+					return false
+				}
+				// state stores that follow
+				for _, tb := range fn.Blocks {
+					if tb != b && !b.Dominates(tb) {
+						continue
+					}
+					for ti, tins := range tb.Instrs {
+						t, ok := tins.(*ssa.Store)
+						if !ok || !isField(t.Addr, "stage") || (tb == b && ti < ai) {
+							continue
+						}
+						c, ok := t.Val.(*ssa.Const)
+						if !ok || c.Value == nil || c.Value.ExactString() == "0" {
+							continue
+						}
+						n++
+						key := fmt.Sprintf("%s: state %s after the element count", core.FuncName(fn), c.Value.ExactString())
+						guarded := false
+						for d := tb.Idom(); d != nil; d = d.Idom() {
+							if len(d.Instrs) == 0 {
+								continue
+							}
+							iff, ok := d.Instrs[len(d.Instrs)-1].(*ssa.If)
+							if !ok {
+								continue
+							}
+							cmp, ok := iff.Cond.(*ssa.BinOp)
+							if !ok {
+								continue
+							}
+							_, lc := strip(cmp.X).(*ssa.Const)
+							_, rc := strip(cmp.Y).(*ssa.Const)
+							if !((isCount(cmp.X) && rc) || (isCount(cmp.Y) && lc)) {
+								continue
+							}
+							k := 0
+							for _, s := range d.Succs {
+								if s == tb || s.Dominates(tb) {
+									k++
+								}
+							}
+							if k == 1 {
+								guarded = true
+							}
+						}
+						if guarded {
+							r.Hold(rule, key, p.InstrPos(tins), "under a test of the count just read")
+						} else {
+							r.Violate(rule, key, p.InstrPos(tins), "the parser expects an element after every element-count line, also after \"*0\": the encoding of an empty list never completes and the next request or reply on the connection is rejected - the parser does not parse its own Build* output back", nil)
+						}
+					}
+				}
+			}
+		}
+	}
+	if n == 0 {
+		r.Fail("C14/R12: no state store after an element-count store found in the text parsers")
+	}
+}
+
+// c14R13: a converter that hands the rest of its argument list (args[i+k:], no
+// upper bound) to another consumer inside a loop over i has given those
+// arguments away: the nested command they describe owns them. If the loop then
+// goes on with i+step it applies the nested command's options to the outer
+// command as well, and the text form no longer describes the binary command it
+// stands for. Decided on the loop variable: on every back edge reachable from
+// the hand-over the new value of i is len(args) (+ constant), or there is no
+// such back edge (the loop is left).
+func c14R13(p *core.Prog, r *core.Report) {
+	const rule = "C14/R13"
+	r.Rule(rule, "text converters: after the rest of the argument list is handed to a nested conversion inside an option loop, the loop does not go on over those arguments", 1)
+	n := 0
+	for _, fn := range p.FuncsIn("protocol") {
+		if fn.Blocks == nil {
+			continue
+		}
+		for _, b := range fn.Blocks {
+			for _, ins := range b.Instrs {
+				call, ok := ins.(ssa.CallInstruction)
+				if !ok {
+					continue
+				}
+				for _, a := range call.Common().Args {
+					sl, ok := a.(*ssa.Slice)
+					if !ok || sl.High != nil || sl.Low == nil {
+						continue
+					}
+					if st, ok := sl.X.Type().Underlying().(*types.Slice); !ok || !types.Identical(st.Elem(), types.Typ[types.String]) {
+						continue
+					}
+					// loop variable: a header phi the lower bound depends on
+					var phi *ssa.Phi
+					v := sl.Low
+					for d := 0; d < 4 && phi == nil; d++ {
+						switch x := v.(type) {
+						case *ssa.Phi:
+							phi = x
+						case *ssa.BinOp:
+							if _, ok := x.Y.(*ssa.Const); ok {
+								v = x.X
+							} else if _, ok := x.X.(*ssa.Const); ok {
+								v = x.Y
+							} else {
+								d = 4
+							}
+						default:
+							d = 4
+						}
+					}
+					if phi == nil {
+						continue
+					}
+					h := phi.Block()
+					isHeader := false
+					for _, pred := range h.Preds {
+						if h.Dominates(pred) {
+							isHeader = true
+						}
+					}
+					if !h.Dominates(b) || !isHeader {
+						continue // not a loop around the hand-over
+					}
+					n++
+					key := fmt.Sprintf("%s: rest of the arguments handed to %s", core.FuncName(fn), eventLabel(ins))
+					// value of the loop variable on a back edge, as seen from b
+					var eval func(v ssa.Value, depth int) string
+					eval = func(v ssa.Value, depth int) string {
+						if depth > 8 {
+							return "?"
+						}
+						switch x := v.(type) {
+						case *ssa.Phi:
+							if x == phi {
+								return "i"
+							}
+							res := ""
+							for i, e := range x.Edges {
+								pred := x.Block().Preds[i]
+								if pred != b && !b.Dominates(pred) {
+									continue
+								}
+								s := eval(e, depth+1)
+								if res != "" && res != s {
+									return "?"
+								}
+								res = s
+							}
+							if res == "" {
+								return "?"
+							}
+							return res
+						case *ssa.BinOp:
+							if c, ok := constIntOf(x.Y); ok && x.Op == token.ADD && c >= 0 {
+								return eval(x.X, depth+1)
+							}
+							return "?"
+						case *ssa.Call:
+							if bi, ok := x.Call.Value.(*ssa.Builtin); ok && bi.Name() == "len" && len(x.Call.Args) == 1 && x.Call.Args[0] == sl.X {
+								return "len"
+							}
+						case *ssa.Convert:
+							return eval(x.X, depth+1)
+						}
+						return "?"
+					}
+					bad, back := "", 0
+					for i, pred := range h.Preds {
+						if !h.Dominates(pred) {
+							continue // loop entry
+						}
+						if pred != b && !blockReachesAvoiding(b, pred, h) {
+							continue
+						}
+						back++
+						switch eval(phi.Edges[i], 0) {
+						case "len":
+						case "i":
+							bad = "the option loop goes on with the next pair of the arguments it has just handed to the nested conversion: every option of the nested command (LOCK_ID, TIMEOUT, EXPRIED, ...) is applied to the outer command as well"
+						default:
+							bad = "cannot show that the option loop ends after the hand-over (loop variable is neither advanced to len(args) nor the loop left)"
+						}
+					}
+					if bad != "" {
+						r.Violate(rule, key, p.InstrPos(ins), bad, nil)
+					} else if back == 0 {
+						r.Hold(rule, key, p.InstrPos(ins), "the loop is left after the hand-over")
+					} else {
+						r.Hold(rule, key, p.InstrPos(ins), "the loop variable is advanced to len(args) after the hand-over")
+					}
+				}
+			}
+		}
+	}
+	if n == 0 {
+		r.Fail("C14/R13: no hand-over of the rest of an argument list inside a loop found")
+	}
+}
+
+func blockReachesAvoiding(from, to, avoid *ssa.BasicBlock) bool {
+	seen := map[*ssa.BasicBlock]bool{avoid: true}
+	work := append([]*ssa.BasicBlock{}, from.Succs...)
+	for len(work) > 0 {
+		c := work[len(work)-1]
+		work = work[:len(work)-1]
+		if c == to {
+			return true
+		}
+		if seen[c] {
+			continue
+		}
+		seen[c] = true
+		work = append(work, c.Succs...)
+	}
+	return false
 }
